@@ -642,6 +642,10 @@ class Family:
           CoreH<T>      pub generic record in a sub-module, no namespace override, owned sub-node, instantiated twice
           CoreBlock<const CN0: usize>  generic over const parameters only, instantiated with 4 and 16 (in the model the
                         const parameter is a type parameter standing for [u8; N])
+          CoreList / CoreForest+CoreTree / CoreFs+CoreDir   a recursive record reached from outside through the same Option<Box<_>> / Vec<_> /
+                        BTreeMap<_> wrapper it recurses through (one shared union / array / map node, re-entered after a named record started)
+          CoreNum / CoreWhen   union enums where a branch designated by a type name (Long, Date, String) sits next to a record / enum whose
+                        unqualified name is that word in another namespace (wide.Long, calendar.Date, tags.String)
           CoreRoot      all of them in one schema"""
         def new(kind, ident, nparams=0, module="", ns=None):
             d = Def(self, len(self.defs), kind, 2000 + len(self.defs))
@@ -695,8 +699,48 @@ class Family:
         blk.const_generic = True
         blk.fields = [("data", False, Slot(("param", 0), "[u8; CN0]", '#[serde(with = "serde_bytes")]', gen="gen_arr::<CN0>(g, @d)", kind="arr"), False),
                       ("n", False, self.plain_slot(P("i32")), False)]
+        # a recursive type reached from OUTSIDE through the very wrapper it recurses through: the derive shares one node per lookup
+        # type, so the union / array / map node is entered again (after a named record has been started) while it is being written
+        lst = new("struct", "CoreList")
+        lst.fields = [("name", False, self.plain_slot(("string",)), False),
+                      ("head", False, self.plain_slot(("option", ("ptr", "Box", named(node)))), False)]
+        tree = new("struct", "CoreTree")
+        tree.fields = [("id", False, self.plain_slot(P("i32")), False),
+                       ("children", False, self.plain_slot(("vec", named(tree))), False)]
+        forest = new("struct", "CoreForest")
+        forest.fields = [("trees", False, self.plain_slot(("vec", named(tree))), False)]
+        cdir = new("struct", "CoreDir", module="sub")
+        cdir.fields = [("size", False, self.plain_slot(P("i64")), False),
+                       ("entries", False, self.plain_slot(("map", "BTreeMap", named(cdir))), False)]
+        cfs = new("struct", "CoreFs")
+        cfs.fields = [("mounts", False, self.plain_slot(("map", "BTreeMap", named(cdir))), False),
+                      ("first", False, self.plain_slot(("option", ("ptr", "Box", named(node)))), False),
+                      ("spare", False, self.plain_slot(("option", named(node))), False)]
+        # union enums in which a branch designated by a TYPE NAME (Long, Date, String: what the deserializer reports for an unnamed
+        # branch) sits next to a named type whose UNQUALIFIED name is that same word in another namespace
+        wide = new("struct", "CoreWideLong", ns="wide")
+        wide.name = "Long"
+        wide.fields = [("hi", False, self.plain_slot(P("i64")), False), ("lo", False, self.plain_slot(P("i64")), False)]
+        cal = new("struct", "CoreCalDate", ns="calendar")
+        cal.name = "Date"
+        cal.fields = [("year", False, self.plain_slot(P("i32")), False), ("day", False, self.plain_slot(P("i32")), False)]
+        tag = new("unit_enum", "CoreTagString", ns="tags")
+        tag.name = "String"
+        tag.symbols = [("Short", False), ("Wide", False)]
+        num = new("union_enum", "CoreNum")
+        num.variants = [("Wide", wide.fullname(), self.plain_slot(named(wide)), False),
+                        ("Long", "Long", self.plain_slot(P("i64")), False)]
+        when = new("union_enum", "CoreWhen")
+        when.variants = [("Null", "Null", None, False),
+                         ("Date", "Date", lg("date", "i32"), False),
+                         ("Calendar", cal.fullname(), self.plain_slot(named(cal)), False),
+                         ("String", "String", self.plain_slot(("string",)), False),
+                         ("Tag", tag.fullname(), self.plain_slot(named(tag)), False),
+                         ("Long", "Long", self.plain_slot(P("i64")), False),
+                         ("WideLong", wide.fullname(), self.plain_slot(named(wide)), False)]
         root = new("struct", "CoreRoot")
-        fs = [("node", named(node)), ("opt_e", named(opte)), ("u", named(u)), ("us", ("vec", named(u))),
+        fs = [("list", named(lst)), ("forest", named(forest)), ("fs", named(cfs)), ("num", named(num)), ("whens", ("vec", named(when))),
+              ("node", named(node)), ("opt_e", named(opte)), ("u", named(u)), ("us", ("vec", named(u))),
               ("um", ("map", "BTreeMap", named(u))), ("times", named(times)), ("otimes", ("option", named(times))),
               ("g1", named(g, P("i32"))), ("g2", named(g, ("string",))), ("g3", named(g, named(color))),
               ("h1", named(h, P("i64"))), ("h2", named(h, named(node))),
